@@ -81,6 +81,10 @@ def run_case(rp, op):
         ts = [stubs.make_task(rp, tm, 'task.%06d' % i) for i in range(len(op['trajs']))]
         ck = Clock(ts, op['trajs'], limit)
         uids = [t.uid for t in ts]
+        if op.get('one') and len(uids) == 1:
+            # a single uid given as a string: the answer is that task's state, not a list
+            r = with_clock(ck, lambda: tm.wait_tasks(uids=uids[0], state=req, timeout=(to * Clock.TICK) if to else None))
+            return r if r == 'spin' else [r[0], [r[1]] if not isinstance(r[1], list) else r[1]]
         return with_clock(ck, lambda: tm.wait_tasks(uids=uids, state=req, timeout=(to * Clock.TICK) if to else None))
     if kind == 'wait_pilots':
         pm = c14.make_pmgr(rp)
@@ -88,6 +92,9 @@ def run_case(rp, op):
         ps = [c14.make_pilot(rp, pm, 'pilot.%04d' % i, 'NEW') for i in range(len(op['trajs']))]
         ck = Clock(ps, op['trajs'], limit)
         uids = [p.uid for p in ps]
+        if op.get('one') and len(uids) == 1:
+            r = with_clock(ck, lambda: pm.wait_pilots(uids=uids[0], state=req, timeout=(to * Clock.TICK) if to else None))
+            return r if r == 'spin' else [r[0], [r[1]] if not isinstance(r[1], list) else r[1]]
         return with_clock(ck, lambda: pm.wait_pilots(uids=uids, state=req, timeout=(to * Clock.TICK) if to else None))
 
 
@@ -213,7 +220,9 @@ def run(ctx):
             ops.append({'op': kind, 'req': req, 'to': to, 'traj': reachable_traj(rng, sts, FIN, 7)})
         else:
             ops.append({'op': kind, 'req': req, 'to': to,
-                        'trajs': [reachable_traj(rng, sts, FIN, 7) for _ in range(rng.randint(1, 4))]})
+                        'trajs': [reachable_traj(rng, sts, FIN, 7) for _ in range(rng.choice([1, 1, 2, 3, 4]))]})
+            if len(ops[-1]['trajs']) == 1 and rng.random() < 0.6:
+                ops[-1]['one'] = True
     impl = []
     dist = {}
     for op in ops:
